@@ -101,12 +101,14 @@ theorem node_local {e : Env} {nd : Nd} {child : Option Nd} (hD : DNode nd)
           simp only [nodeStep, hnd, hh1, hf, hk]
           by_cases hb : nd.buf + 1 ≥ B <;> simp [hhd, hb]
       | loop => simp [hk, isLoop] at hnl
-      | pass | post | alert _ | udf | fail _ =>
+      | udf => have := hD.nu; simp [hk, isUdf] at this
+      | pass | post | alert _ | fail _ =>
+        have hfd := hD.fd
         cases hc : child with
-        | none => exact Or.inl ⟨.put, by simp [nodeStep, hnd, hh1, hf, hk]⟩
+        | none => exact Or.inl ⟨.put, by simp [nodeStep, hnd, hh1, hf, hk, hfd]⟩
         | some c =>
           by_cases hsp : c.inq < e.cap
-          · exact Or.inl ⟨.put, by simp [nodeStep, hnd, hh1, hf, hk, hsp]⟩
+          · exact Or.inl ⟨.put, by simp [nodeStep, hnd, hh1, hf, hk, hsp, hfd]⟩
           · by_cases hab : c.inAborted = true
             · exact Or.inl ⟨.putErr, by simp [nodeStep, hnd, hh1, hf, hk, hab]⟩
             · exact Or.inr ⟨rfl, hh1, c, rfl, hsp, by simpa using hab⟩
@@ -373,11 +375,13 @@ theorem progress_or_stopped {cfg : Cfg} {s : State} (hd : DInv s) (hcap : 1 ≤ 
     | influx B => exact hd.joinP j nd hj (by simp [hk, isInflux]) (by simp [hph, joinedBy])
     | _ => exact hD.nh (by simp [hk, Kind.hasHelper])
 
-theorem dinv_init (kinds : List Kind) (n : Nat) (hk : ∀ k ∈ kinds, isLoop k = false) : DInv (init kinds n) := by
+theorem dinv_init (kinds : List Kind) (n : Nat) (hk : ∀ k ∈ kinds, isLoop k = false)
+    (hu : ∀ k ∈ kinds, isUdf k = false) : DInv (init kinds n) := by
   refine ⟨?_, ?_, ?_, ?_, ?_, ?_, ?_, ?_, ?_, ?_, ?_, ?_, ?_, ?_⟩
   · intro i nd h
     obtain ⟨k, hki, rfl⟩ := init_getElem? _ _ _ _ h
     have := hk k (List.mem_of_getElem? hki)
+    have := hu k (List.mem_of_getElem? hki)
     constructor <;> simp_all [mkNd]
     · cases k <;> simp_all [isAlert, Kind.hasHelper]
     · cases k <;> simp_all [isInflux, Kind.hasHelper]
